@@ -372,6 +372,18 @@ def call_numpy(it, name, mod, fn, args, kwargs, node, fr):
 
 
 def reduce_(it, fn, v, axis, kwargs, node):
+    extra_ = {k: x for k, x in kwargs.items() if k in ("initial", "where")}
+    if extra_:
+        # `initial` takes part in the reduction (min(x, initial=0) is min(min(x), 0)); `where` restricts it
+        base = reduce_(it, fn, v, axis, {k: x for k, x in kwargs.items() if k not in ("initial", "where")}, node)
+        t = to_term(base)
+        if "where" in extra_:
+            t = call("reduce_where", t, to_term(extra_["where"]))
+        if "initial" in extra_:
+            nm = {"amax": "max", "amin": "min", "nanmax": "max", "nanmin": "min"}.get(fn, fn)
+            op = {"max": "maximum", "min": "minimum", "sum": "add", "prod": "mul"}.get(nm)
+            t = mk(op, t, to_term(extra_["initial"])) if op else call("reduce_initial", t, to_term(extra_["initial"]))
+        return Unk(t, space=getattr(base, "space", None))
     fnn = {"amax": "max", "amin": "min", "nansum": "sum", "nanmax": "max", "nanmin": "min", "nanmean": "mean"}.get(fn, fn)
     a = as_arr(v) if not isinstance(v, Val) else None
     ax = None
